@@ -1,22 +1,41 @@
 """Worker process: runs a shard of cases for one property (LD_PRELOAD=libasan)."""
-import sys, os, json, importlib, traceback, signal
+import sys, os, json, importlib, traceback, signal, time
 def main():
     job = json.load(open(sys.argv[1]))
     mod = importlib.import_module(job["pid"].lower())
     st = mod.worker_init(job["ctx"])
     out = open(job["out"], "w")
     per_case_timeout = job["ctx"].get("case_timeout", 300)
+    ncpu = os.cpu_count() or 1
+    t0 = [0.0]
     def on_alarm(sig, frm):
+        # the limit is a wall-clock one; on an overloaded machine (load average above the number of CPUs) it is
+        # stretched in proportion, up to 8x, so that a slow machine is not taken for a hang
+        try:
+            f = min(8.0, max(1.0, 2.0 * os.getloadavg()[0] / ncpu))
+        except OSError:
+            f = 1.0
+        left = per_case_timeout * f - (time.time() - t0[0])
+        if left > 1:
+            signal.alarm(int(min(left, per_case_timeout)) + 1)
+            return
         raise TimeoutError("case timeout")
     signal.signal(signal.SIGALRM, on_alarm)
     for case in job["cases"]:
         with open(job["cur"], "w") as f:
             json.dump(case, f)
+        t0[0] = time.time()
         signal.alarm(per_case_timeout)
         try:
             rs = mod.run_case(st, case)
         except TimeoutError:
-            rs = {"status": "prop_fail", "what": "case did not terminate within %ds" % per_case_timeout, "nontrivial": True, "kind": "timeout"}
+            signal.alarm(0)
+            rs = {"status": "prop_fail", "what": "case did not terminate within %ds (wall clock %ds)" % (per_case_timeout, time.time() - t0[0]), "nontrivial": True, "kind": "timeout"}
+            # the interrupted case may have left an oracle mid-answer: start from fresh oracles and libraries
+            try:
+                st = mod.worker_init(job["ctx"])
+            except Exception:
+                pass
         except Exception as e:
             rs = {"status": "harness_error", "what": traceback.format_exc()[-1500:], "kind": "harness_error"}
         signal.alarm(0)
